@@ -7,6 +7,7 @@ import (
 	"fmt"
 	"io"
 	"net"
+	"os"
 	"strconv"
 	"strings"
 	"sync"
@@ -37,7 +38,8 @@ type connCase struct {
 	Start    int64            `json:"start"`     // fetch operations: first offset wanted; -1 = "first" (resolved by the Conn through ListOffsets)
 	MaxBytes int              `json:"max_bytes"` // fetch operations
 	// DL "op": only the deadline of the operation's own direction is set (SetWriteDeadline for write operations,
-	// SetReadDeadline for the others), the other one is cleared; "" = SetDeadline.
+	// SetReadDeadline for the others), the other one is cleared; "" = SetDeadline.  "op-before" (stall variant): the same,
+	// but the short deadline is set once, before the operation is called, and not touched while it runs.
 	DL string `json:"dl,omitempty"`
 }
 
@@ -52,10 +54,10 @@ var readOps = map[string]bool{"ApiVersions": true, "Controller": true, "Brokers"
 
 func setDL(conn *kafka.Conn, c connCase, t time.Time) {
 	switch {
-	case c.DL == "op" && writeOps[c.Op]:
+	case (c.DL == "op" || c.DL == "op-before") && writeOps[c.Op]:
 		conn.SetReadDeadline(time.Time{})
 		conn.SetWriteDeadline(t)
-	case c.DL == "op":
+	case c.DL == "op" || c.DL == "op-before":
 		conn.SetWriteDeadline(time.Time{})
 		conn.SetReadDeadline(t)
 	default:
@@ -608,6 +610,7 @@ func execute(tb ev.TB, fx *fixture, c connCase, mode string) (res opResult, p *p
 	// moment the target request reaches the broker (the exchanges before it run under the long one)
 	deadline := 4 * time.Second
 	const stallDeadline = 80 * time.Millisecond
+	const stallBefore = 400 * time.Millisecond
 	e.deadline = deadline
 	var hitAt time.Time
 	var hitMu sync.Mutex
@@ -616,7 +619,7 @@ func execute(tb ev.TB, fx *fixture, c connCase, mode string) (res opResult, p *p
 			hitMu.Lock()
 			hitAt = time.Now()
 			hitMu.Unlock()
-			if e.conn != nil && c.Op != "ReadBatchLateDeadline" {
+			if e.conn != nil && c.Op != "ReadBatchLateDeadline" && c.DL != "op-before" {
 				// (that operation sets its short deadline itself, after ReadBatch has returned)
 				setDL(e.conn, c, time.Now().Add(stallDeadline))
 			}
@@ -641,6 +644,11 @@ func execute(tb ev.TB, fx *fixture, c connCase, mode string) (res opResult, p *p
 			}
 		}
 		setDL(conn, c, time.Now().Add(deadline))
+		if mode == "stall" && c.DL == "op-before" {
+			// the caller bounds the whole operation up front, in the operation's own direction only (the exchanges before the
+			// stalled one take microseconds in the in-memory network)
+			setDL(conn, c, time.Now().Add(stallBefore))
+		}
 	} else {
 		p.connID = len(fx.nw.Conns()) + 1
 	}
@@ -832,6 +840,9 @@ func evalConn(tb ev.TB, c connCase, base *baseline, shared *fixture) {
 		fx.arm(nil)
 	}()
 	sig := opSig(c)
+	if os.Getenv("C17_DEBUG") != "" {
+		fmt.Fprintf(os.Stderr, "C17_DEBUG %s v%d k=%d %s dl=%q: returned=%v took=%v err=%v hit=%v\n", c.Op, c.Ver, c.K, c.Variant, c.DL, out.Returned, out.Took, res.err, p.hit)
+	}
 	if c.Variant == "stall" && out.Returned && out.Took > 80*time.Millisecond+2*time.Second {
 		// it did return; how late is a matter of the load of the machine, not decidable here
 		ev.Inconclusive("returned_late_after_deadline")
@@ -856,6 +867,10 @@ func evalConn(tb ev.TB, c connCase, base *baseline, shared *fixture) {
 		ev.Count("frame_differs_from_probe", 1)
 	}
 	fx.mu.Unlock()
+	if !hit && c.DL == "op-before" {
+		ev.Inconclusive("deadline_set_before_the_call_expired_before_the_stalled_exchange") // a starved process, nothing to judge
+		return
+	}
 	if !hit {
 		tb.Fatalf("harness: %s did not send %s #%d", c.Op, apiName(c.TKey), c.TIdx)
 	}
@@ -1051,6 +1066,10 @@ func enumerateGroup(tb ev.TB, g connCase, rnd func(n int) int, all bool) {
 		if !op.dials && (writeOps[g.Op] || readOps[g.Op]) {
 			c.DL = "op" // only the deadline of the operation's own direction is set
 			variants = append(variants, c)
+			if k == stalls[len(stalls)-1] || all {
+				c.DL = "op-before" // ... and set before the call instead of while it runs
+				variants = append(variants, c)
+			}
 		}
 		for _, c := range variants {
 			wg.Add(1)
